@@ -62,8 +62,19 @@ class Ref:
             if k == "block":
                 self._scope(st[1], env_stack, out, scope_path)
             elif k == "for":
-                for i in range(st[2], st[3]):
+                lo = self.lookup_const(st[2], env_stack) if isinstance(st[2], str) else st[2]
+                hi = self.lookup_const(st[3], env_stack) if isinstance(st[3], str) else st[3]
+                for i in range(lo, hi):
                     self._scope(st[4], env_stack, out, scope_path, {st[1]: i})
+            elif k == "macro":
+                env_stack[0].setdefault("macros", {})[st[1]] = (st[2], st[3])
+            elif k == "apply":
+                params, body = env_stack[0]["macros"][st[1]]
+                if len(st[2]) < len(params):
+                    raise IndexError("too few macro arguments")
+                # arguments are evaluated at the call site, then bound in the application's own scope
+                vals = [self.resolve_value(a, env_stack) for a in st[2]]
+                self._scope(body, env_stack, out, scope_path, dict(zip(params, vals)))
             elif k == "if":
                 cond = st[1]
                 val = self.lookup_const(cond, env_stack) if isinstance(cond, str) else cond
@@ -102,6 +113,16 @@ class Ref:
             if name in f["consts"]:
                 return f["consts"][name]
         return None
+
+    def resolve_value(self, v, env_stack):
+        if isinstance(v, str):
+            for f in reversed(env_stack):
+                if v in f["consts"]:
+                    return f["consts"][v]
+                if v in f["labels"]:
+                    return ("labelref", f["labels"][v])
+            raise KeyError(v)
+        return v
 
     def resolve_refs(self, st, env_stack):
         def res(v):
@@ -215,6 +236,12 @@ def render(program, rng, indent=0):
             out.append(f"{pad}{st[1]}:")
         elif k == "const":
             out.append(f"{pad}{st[1]} := {num(st[2])}")
+        elif k == "macro":
+            out.append(f"{pad}.macro {st[1]}({', '.join(st[2])}) {{")
+            out.append(render(st[3], rng, indent + 2))
+            out.append(pad + "}")
+        elif k == "apply":
+            out.append(f"{pad}{st[1]}({rng.choice([', ', ',']).join(num(a) for a in st[2])})".replace("\u200b", ""))
         elif k == "block":
             out.append(pad + "{")
             out.append(render(st[1], rng, indent + 2))
